@@ -40,6 +40,9 @@ type opRec struct {
 	Second    uint64
 	Refused   bool
 	PanicMsg  string
+	// Data: the bytes a read returned, kept when they are not one write's
+	// block (judged byte by byte for the file disk)
+	Data []byte
 }
 
 type c10 struct{}
@@ -181,6 +184,7 @@ func doDiskOp(d disk.Disk, client int, op DiskOp) (rec opRec) {
 			return
 		}
 		rec.Val, rec.Uniform, rec.Second = model.BlockID(b)
+		rec.Data = b
 	case "readto":
 		b := make([]byte, model.BlockSize)
 		for i := range b {
@@ -188,6 +192,7 @@ func doDiskOp(d disk.Disk, client int, op DiskOp) (rec opRec) {
 		}
 		d.ReadTo(op.Addr, b)
 		rec.Val, rec.Uniform, rec.Second = model.BlockID(b)
+		rec.Data = b
 	case "size":
 		rec.Val = d.Size()
 	}
@@ -375,8 +380,11 @@ func describeOps(ops []porcupine.Operation) string {
 
 // checkFileHistory: exactly what C10 states for the file-backed disk —
 // distinct addresses never interfere; operations ordered in real time on one
-// address are observed in that order. A read overlapping a write (or following
-// two writes that overlapped each other) is unconstrained.
+// address are observed in that order. No atomicity is assumed between a read
+// and a write that overlap (or between two overlapping writes): such a read may
+// return any byte-wise mixture -- but only of writes that can still be visible.
+// A write is no longer visible to a read once another write began after it
+// returned and itself returned before the read began.
 func checkFileHistory(size uint64, all []opRec) *harness.Violation {
 	if v := checkRefusalAndSize(size, all, "filedisk.conc"); v != nil {
 		return v
@@ -432,6 +440,44 @@ func checkFileHistory(size uint64, all []opRec) *harness.Violation {
 			return viol("filedisk.conc.cross-address", fmt.Sprintf("client %d %s(addr %d) returned data %#x/%#x written to a different address", r.Client, r.Op.Kind, r.Op.Addr, r.Val, r.Second))
 		}
 		if unconstrained {
+			// byte-wise: every byte comes from a write that can still be visible
+			var visible [][]byte
+			var visIDs []uint64
+			initial := true
+			for _, w := range ws {
+				if w.Ret < r.Call {
+					initial = false
+				}
+				if w.Call >= r.Ret {
+					continue
+				}
+				superseded := false
+				for _, w2 := range ws {
+					if w2.Call > w.Ret && w2.Ret < r.Call {
+						superseded = true
+					}
+				}
+				if !superseded {
+					visible = append(visible, model.MkBlock(w.Op.ID, model.BlockSize))
+					visIDs = append(visIDs, w.Op.ID)
+				}
+			}
+			if initial {
+				visible = append(visible, make([]byte, model.BlockSize))
+				visIDs = append(visIDs, 0)
+			}
+			for i, x := range r.Data {
+				ok := false
+				for _, v := range visible {
+					if v[i] == x {
+						ok = true
+						break
+					}
+				}
+				if !ok {
+					return viol("filedisk.conc.stale-read", fmt.Sprintf("client %d %s(addr %d) at [%d,%d] returned a block (first word %#x) whose byte %d is %#x: no write that can still be visible there has that byte (visible: %#x); an older value was returned after a later write had completed", r.Client, r.Op.Kind, r.Op.Addr, r.Call, r.Ret, r.Val, i, x, visIDs))
+				}
+			}
 			continue
 		}
 		if !r.Uniform {
